@@ -333,3 +333,30 @@ Section Runs.
     - destruct H as [[Hs _] E]. split; [exact Hs | exact E].
   Qed.
 End Runs.
+
+(* the same, stated on the three kernels' own runs *)
+Theorem cosine_decomposition :
+  forall (T : Type) (R : SimdOps T) (Mth : MathOps T) (a b res : list T) (dims : nat),
+    1 <= lanes R -> length a = dims -> length b = dims ->
+    match generic_dot_product R Mth dims (init_mem a b res),
+          generic_squared_norm R Mth dims (init_mem a b res),
+          generic_squared_norm R Mth dims (init_mem b a res) with
+    | Ok d _, Ok nx _, Ok ny _ =>
+        match generic_cosine R Mth dims (init_mem a b res) with
+        | Ok r m => run_ok (init_mem a b res) m /\ cosine Mth d nx ny = Some r
+        | Panic m => run_ok (init_mem a b res) m /\ cosine Mth d nx ny = None
+        | _ => False
+        end
+    | _, _, _ => False
+    end.
+Proof.
+  intros T R Mth a b res dims HL Ha Hb.
+  pose proof (dot_run R Mth HL a b res dims Ha Hb) as H1.
+  pose proof (norm_run R Mth HL a b res dims Ha) as H2.
+  pose proof (norm_run R Mth HL b a res dims Hb) as H3.
+  destruct (generic_dot_product R Mth dims (init_mem a b res)) as [d m1| | |]; try contradiction.
+  destruct (generic_squared_norm R Mth dims (init_mem a b res)) as [nx m2| | |]; try contradiction.
+  destruct (generic_squared_norm R Mth dims (init_mem b a res)) as [ny m3| | |]; try contradiction.
+  destruct H1 as [_ ->]. destruct H2 as [_ ->]. destruct H3 as [_ ->].
+  exact (cosine_run R Mth HL a b res dims Ha Hb).
+Qed.
